@@ -210,16 +210,17 @@ class Parser:
             self.skip_generics()
             owner = None
             depth = 0
+            in_where = False
             while not (self.at("{") and depth == 0):
                 t = self.next()
                 if t[0] == "op" and t[1] == "<":
                     depth += 1
                 elif t[0] == "op" and t[1] == ">":
                     depth -= 1
-                elif t[0] == "id" and depth == 0 and t[1] not in ("for", "where", "dyn", "mut"):
+                elif t[0] == "id" and t[1] == "where" and depth == 0:
+                    in_where = True
+                elif t[0] == "id" and depth == 0 and not in_where and t[1] not in ("for", "dyn", "mut"):
                     owner = t[1]
-                elif t[0] == "id" and t[1] == "where":
-                    pass
             items = self.parse_impl_body()
             return [it + (owner,) if it[0] == "fn" else it for it in items]
         if x == "}":
@@ -349,8 +350,6 @@ class Parser:
                 self.expect("}")
                 return ("pstruct", path, fields)
             if len(path) == 1 and (path[0][0].islower() or path[0] == "_" or path[0].startswith("_")):
-                if self.accept("if"):
-                    self.err("pattern guards unsupported")
                 return ("pbind", path[0])
             return ("ppath", path)
         self.err("unsupported pattern")
